@@ -163,6 +163,7 @@ func (c ProgCfg) plant(r *Rand, doc any) (any, string) {
 		{c.Encode, c.plantEncode}, {c.Decode, c.plantDecode}, {c.Interp, c.plantInterp},
 		{c.Env, c.plantEnv}, {c.Escape, c.plantEscape}, {c.Required, c.plantRequired},
 		{c.PBad > 0, c.plantBad},
+		{c.PBad > 0, c.plantSoup},
 	}
 	var enabled []pl
 	for _, p := range all {
@@ -519,4 +520,43 @@ func differentFrom(r *Rand, c TreeCfg, v any) any {
 		}
 	}
 	return "other"
+}
+
+var soupKeys = []string{"$repeat", "$env:VERIF_B", "$merge:a", "$replace:b", "$value", "$output", "$match", "$encode", "$decode", "$replace", "$merge",
+	"$delete", "$required", "$invert", "$parent", "$path", "$\"{a}\"", "$\"k{$repeat}\"", "$$x", "$"}
+
+// plantSoup puts a directive-shaped key with an arbitrary value (scalar, list
+// or a map that itself carries directive keys) at an arbitrary map position:
+// misplaced directives and arbitrary argument types at arbitrary positions.
+func (c ProgCfg) plantSoup(r *Rand, doc any) (any, string) {
+	ms := MapPositions(doc)
+	if len(ms) == 0 {
+		return doc, ""
+	}
+	h := PickAny(r, ms)
+	v, _ := Get(doc, h)
+	val := func(depth int) any { return nil }
+	val = func(depth int) any {
+		switch r.Intn(6) {
+		case 0:
+			return r.Range(0, 3)
+		case 1:
+			return PickAny(r, []any{true, false, nil, "a", "a.b", 1.5, "json", "base64"})
+		case 2:
+			return []any{c.Tree.Scalar(r), r.Range(0, 2)}
+		case 3, 4:
+			if depth > 1 {
+				return c.Tree.Scalar(r)
+			}
+			m := map[string]any{PickAny(r, soupKeys): val(depth + 1)}
+			if r.Chance(0.5) {
+				m[PickAny(r, c.Tree.Keys)] = c.Tree.Scalar(r)
+			}
+			return m
+		default:
+			return c.Tree.Scalar(r)
+		}
+	}
+	v.(map[string]any)[PickAny(r, soupKeys)] = val(0)
+	return doc, "soup"
 }
